@@ -63,7 +63,8 @@ try:
     cenv = dict(os.environ, VERIF_REPO=wt, VERIF_OUT_DIR=evd)
     for c in checks:
         r = sh(f"cd {ROOT} && ./check {c} --tier {os.environ.get('TIER', 'quick')}", env=cenv)
-        lines = [l for l in r.stdout.splitlines() if l.startswith("VIOLATION")]
+        out_lines = r.stdout.splitlines()
+        lines = [l + (" " + out_lines[i + 1].strip() if i + 1 < len(out_lines) and out_lines[i + 1].startswith("  #") else "") for i, l in enumerate(out_lines) if l.startswith("VIOLATION")]
         results[c] = {"rc": r.returncode, "violation_lines": len(lines), "first": (lines[0][:400] if lines else ""), "summary": r.stdout.strip().splitlines()[-1][:300] if r.stdout.strip() else r.stderr[-300:]}
         print(f"   check {c}: rc={r.returncode} {len(lines)} violation lines. {results[c]['first'][:260]}")
         if r.returncode not in (0, 1):
